@@ -4,7 +4,7 @@
    crossing_parity / inside_ellipse = exact membership specifications).           *)
 From Coq Require Import Reals QArith Qreals List ZArith Bool Lra.
 Require Import Cox.Num.Ops Cox.Num.Transfer Cox.Geo.Vec Cox.Model.Inside
-  Cox.Thm.InsideThm Cox.Thm.InsideTransfer.
+  Cox.Thm.InsideThm Cox.Thm.InsideTransfer Cox.Thm.WindingThm.
 Import ListNotations.
 
 (* The answer does not depend on which vertex the cycle starts from (any polygon, any point) *)
@@ -27,6 +27,46 @@ Theorem C06_polygon_orientation_free_partial :
     inside_polygon Rops p (rev V) = inside_polygon Rops p V.
 Proof. exact inside_polygon_reverse. Qed.
 Print Assumptions C06_polygon_orientation_free_partial.
+
+(* THE MAIN THEOREM. For every vertex cycle (any length, convex or not, either orientation, self-touching or not) and
+   every point that lies on none of the closed segments of the fan from the first vertex (polygon edges and chords),
+   the code's turn sum - with its lexicographic tie-breaking for points sharing a coordinate with a vertex - equals
+   the signed fan indicator: the sum over the fan triangles of +2 / -2 / 0 for a point strictly inside a
+   counter-clockwise / clockwise triangle / outside.  That indicator is the density whose integral is the shoelace
+   area (C04), i.e. membership in the polygon counted with orientation. *)
+Theorem C06_triangle :
+  forall u v w : vec2 R, off_seg u v -> off_seg v w -> off_seg w u ->
+    (ht u v + ht v w + ht w u)%Z = tri_ind u v w.
+Proof. exact triangle_turns. Qed.
+Print Assumptions C06_triangle.
+
+Theorem C06_polygon_is_sum_of_fan_triangles :
+  forall (p a b : vec2 R) (l : list (vec2 R)), turn_sum Rops p (a :: b :: l) = zfan p a b l.
+Proof. exact turn_sum_is_fan. Qed.
+Print Assumptions C06_polygon_is_sum_of_fan_triangles.
+
+Theorem C06_winding_is_signed_fan_indicator :
+  forall (p a b : vec2 R) (l : list (vec2 R)), fan_off p a b l ->
+    turn_sum Rops p (a :: b :: l) = fan_ind p a b l
+    /\ inside_polygon Rops p (a :: b :: l) = negb (Z.eqb (Z.div (fan_ind p a b l) 2) 0).
+Proof. intros p a b l H. split; [apply winding_is_fan_indicator | apply inside_polygon_is_fan_indicator]; exact H. Qed.
+Print Assumptions C06_winding_is_signed_fan_indicator.
+
+(* ... so, off those segments, the answer is independent of the listing order (no evenness hypothesis left) *)
+Theorem C06_polygon_orientation_free :
+  forall (p a b : vec2 R) (l : list (vec2 R)), fan_off p a b l ->
+    inside_polygon Rops p (rev (a :: b :: l)) = inside_polygon Rops p (a :: b :: l).
+Proof. exact inside_polygon_orientation_free. Qed.
+Print Assumptions C06_polygon_orientation_free.
+
+(* the hypothesis is satisfiable on a point sharing its x coordinate with a vertex (tie-breaking case) *)
+Example C06_fan_off_example :
+  let p := (2, 1 / 2)%R in
+  fan_off p (0,0)%R (4,0)%R [(4,4); (2,1); (0,4)]%R.
+Proof.
+  cbn [fan_off]. unfold off_seg, cr, dt, psub, px, py; cbn [fst snd osub Rops].
+  repeat split; intros [H1 H2]; lra.
+Qed.
 
 (* executable model = real model on the embedded input *)
 Theorem C06_polygon_transfer :
